@@ -19,7 +19,7 @@ import re
 import sys
 from collections import Counter, OrderedDict
 
-REPO = os.environ.get("C04_REPO", "/repo")
+REPO = os.environ.get("FV_REPO") or os.environ.get("C04_REPO") or "/repo"
 OUT = os.environ.get("C04_OUT") or os.path.join(os.path.dirname(os.path.dirname(os.path.abspath(__file__))), "coq", "C04", "Gen.v")
 
 WIDTH = {"u8": 1, "i8": 1, "u16": 2, "i16": 2, "F2Dot14": 2, "FWord": 2, "UfWord": 2, "GlyphId16": 2, "NameId": 2,
